@@ -1,7 +1,7 @@
 """C19 - growable array: stable, disjoint, zero-initialised elements."""
 from engine.qb import (AnalysisBroken, estr, unwrap, cval, walk, last_field, fields_of, callee_of, mentions_var,
                        atoms_of, lockset)
-from rules.common import field_is, has_call, derives
+from rules.common import field_is, has_call, derives, value_sources
 
 UNITS = ['lib/array.c']
 DECIDES = ('Decides the lock discipline on the bin table, that element blocks are allocated zeroed, once, and never moved or freed '
@@ -108,6 +108,11 @@ def r2(ctx, by):
                 ctx.check('R2', '%s:null-store-new-slots-only' % f.name, ok, ev, 'NULL stored only into slots at or beyond the old num_bins',
                           'NULL is stored into a table slot that may hold a live block (element addresses change / leak)')
             else:
+                if r.get('k') == 'var':
+                    # a local that only ever holds the result of one calloc
+                    srcs, entry = value_sources(f, r, ev)
+                    if len(srcs) == 1 and not entry and callee_of(srcs[0]) == 'calloc':
+                        r = srcs[0]
                 ok = callee_of(r) == 'calloc'
                 if ok:
                     per_bin = cval(unwrap(r['args'][0]))
@@ -121,6 +126,23 @@ def r2(ctx, by):
                 path = f.uncut_path(ev, empty_atom)
                 ctx.check('R2', '%s:install-only-into-empty-slot' % f.name, path is None, ev, 'installed only when the slot is NULL',
                           'a block may be installed over an existing one (addresses handed out earlier go stale)')
+                # ... and the test and the install are in one critical section: from every "slot is NULL" edge
+                # the store is reached without the lock having been dropped
+                racy = False
+                for b in f.blocks.values():
+                    if b.cond is None:
+                        continue
+                    for (t, lab) in b.succs:
+                        if lab in (True, False) and any(empty_atom(a_, b) for a_ in atoms_of(b.cond, lab)):
+                            hits, _e, _n = f.search(('edge', b.id, t), goal=lambda x: x.kind == 'CALL' and x.callee == 'qb_thread_unlock',
+                                                    stop=lambda x, ev=ev: x is ev)
+                            # an unlock reached before the store (search stops at the store)
+                            for (u, _p) in hits:
+                                if f.may_follow(u, ev):
+                                    racy = True
+                ctx.check('R2', '%s:test-and-install-under-one-lock-hold' % f.name, not racy, ev,
+                          'the slot test and the install happen without releasing grow_lock in between',
+                          'grow_lock is released between testing the slot and installing the block: two threads can both install a block for the same slot (address changes, data lost)')
         for ev in f.calls('realloc'):
             ok = field_is(ev.args[0], 'bin', 'qb_array') and not _is_bin_slot(ev.args[0])
             ctx.check('R2', '%s:realloc-table-only' % f.name, ok, ev, 'realloc applied to the pointer table only',
